@@ -53,6 +53,11 @@ PROPS = {
                                                        "scope: message text and EIP-191 wrapping, digest wiring, constructor refusals, the device exchange; "
                                                        "sign-then-verify (secp256k1) and the file save/load round trip are NOT covered (DESIGN 5.C17)"],
                 trusted_base=TB, explanation="string obligations are syntactic equalities of SMT string terms; the signature loop has an inductive invariant"),
+    "C18": dict(level="proof", assumptions=COMMON + ["stdin / getpass answers are arbitrary strings; os.urandom(n) returns n arbitrary bytes",
+                                                       "scope: onboard (up to and including the onboarding call), unlock and the device-side onboarding/PIN methods; "
+                                                       "changepin and the public-key export (pubkeys.py) are NOT covered yet; 'the operation is carried out when "
+                                                       "the preconditions hold' only as: normal return of do_unlock => exactly one unlock"],
+                trusted_base=TB, explanation="dominance of every destructive device call by its preconditions, as assertions at the call sites over all paths"),
     "C13": dict(level="proof", assumptions=COMMON + [A_FW], trusted_base=TB + ["spec/firmware.py"],
                 explanation="reply fields are equated with the answers recorded in the ghost log, selectors from the firmware headers"),
 }
